@@ -175,11 +175,17 @@ CHECKS = {
  'C11': dict(
    text="Theorem C11_spec: for every list of read chunks the frames delivered by the model of MessageReceiver.receive, and the point "
         "and kind of refusal, equal those of the declarative stream grammar applied to the concatenation; corollary: any two "
-        "chunkings of the same stream behave identically. Unbounded in stream length and number/position of cuts.",
-   note="Hand model tied to the real MessageReceiver by running both on every 1-, 2-, 3-way and byte-wise cut of generated short "
+        "chunkings of the same stream behave identically. Unbounded in stream length and number/position of cuts. "
+        "C11_send_receive / C11_send_receive_prefix: the byte stream the sender model (send_message + handle_can_send) makes of "
+        "any list of payloads within the size limit is delivered by the receiver as exactly that list, in order, with no refusal "
+        "and no pending byte, for every fragmentation; every prefix of the connection has delivered a prefix of the list; "
+        "C11_oversize_refused shows the size premise is necessary.",
+   note="Sending side tied by driving the real ConnectedRemotePeer.send_message/handle_can_send (stub socket taking 1..all bytes "
+        "per send) and comparing the bytes written with the extracted send_stream. "
+        "Hand model tied to the real MessageReceiver by running both on every 1-, 2-, 3-way and byte-wise cut of generated short "
         "streams (valid, wrong magic, over-limit length incl. sign-bit lengths, partial tail) with the real and a small patched "
         "size limit; observables: frames, refusal kind, residual receiver state.",
-   technique="Coq refinement proof (receiver refines stream grammar) + exhaustive 2/3-way cut correspondence against the real receiver",
+   technique="Coq refinement proof (receiver refines stream grammar; sender composed with receiver is the identity on payload lists) + exhaustive 2/3-way cut correspondence against the real receiver + scripted partial-send correspondence against the real sender",
    design="6/C11"),
  'C17': dict(
    text="Theorems: in the free (symbolic) hash algebra the root determines the ordered list for all non-empty lists (no premise); "
